@@ -1,2 +1,11 @@
 import ZbossModel.Props.C20
-#print axioms Zboss.Host.C20_placeholder
+#print axioms Zboss.Host.C20_refuse_new
+#print axioms Zboss.Host.settle_isOpen
+#print axioms Zboss.Host.settle_transport
+#print axioms Zboss.Host.settle_pack
+#print axioms Zboss.Host.settle_listeners_nil
+#print axioms Zboss.Host.C20_close
+#print axioms Zboss.Host.C20_close_cancels
+#print axioms Zboss.Host.C20_close_idempotent
+#print axioms Zboss.Host.C20_lost_once
+#print axioms Zboss.Host.C20_no_spurious_report
